@@ -707,6 +707,7 @@ def special_keys(rng, size, des=True, limit=None):
     components, complements, ASCII text and ASCII hex digits. Every one of them is a key like any other for the properties."""
     out = [bytes(size), b"\xff" * size, (b"0123456789ABCDEF" * 4)[:size], (b"0123456789abcdef" * 4)[:size], (b"Key material 42!" * 4)[:size], (b"FEDCBA9876543210" * 4)[:size],
            b"\x01" * size, b"\xfe" * size, b"\x80" + bytes(size - 1) if size else b"", bytes(size - 1) + b"\x01" if size else b""]
+    structured = []
     if des and size % 8 == 0 and size:
         n = size // 8
         comps = DES_WEAK + DES_SEMIWEAK + [bytes(8), b"\xff" * 8] + [bytes(b & 0xFE for b in k) for k in DES_WEAK[:2] + DES_SEMIWEAK[:2]]
@@ -718,7 +719,8 @@ def special_keys(rng, size, des=True, limit=None):
                     parts[pos] = comp
                     out.append(b"".join(parts))
         a, b = (bytes(rng.getrandbits(8) for _ in range(8)) for _ in range(2))
-        out += [x[:size] for x in (a + a + b, a + b + b, a + b + a, a + bytes(x ^ 0xFF for x in a) + a) if n >= 2]
+        structured = [x[:size] for x in (a + a + b, a + b + b, a + b + a, a + bytes(x ^ 0xFF for x in a) + a) if n >= 2]
+        out += structured
     elif size:
         a = bytes(rng.getrandbits(8) for _ in range(8))
         out += [(a * 4)[:size], (a + bytes(x ^ 0xFF for x in a)) * (size // 16) + a[: size % 16]]
@@ -729,8 +731,11 @@ def special_keys(rng, size, des=True, limit=None):
             seen.add(k)
             uniq.append(k)
     if limit is not None and len(uniq) > limit:
-        head = uniq[:6]
-        uniq = head + rng.sample(uniq[6:], limit - 6)
+        # always kept: the six constants and the keys with repeated components (K1|K1|K3, K1|K2|K2, K1|K2|K1 - the ones a "shortest
+        # equivalent key" reduction gets wrong); the rest is sampled
+        head = uniq[:6] + [k for k in structured if k in seen and k not in uniq[:6]]
+        rest = [k for k in uniq if k not in head]
+        uniq = head + rng.sample(rest, max(0, limit - len(head)))
     return uniq
 
 
